@@ -159,6 +159,10 @@ def configs(tier):
                     if d == 3 and lmax - lmin == 3:
                         D = 4
                 out.append(({"d": d, "lmin": lmin, "lmax": lmax}, D))
+    for d in (1, 2, 3):          # larger minimum levels: closed form and the first two refinement layers only
+        for lmin in (3, 4):
+            for lmax in range(lmin, lmin + 3):
+                out.append(({"d": d, "lmin": lmin, "lmax": lmax}, 1))
     return out
 
 
